@@ -1,6 +1,7 @@
 import Casm.Proofs.IterModel
 import Casm.Proofs.AssembleLemmas
 import Casm.Proofs.StableId
+import Casm.Props.C01
 /-!
 # C02 — a successful result is a genuine fixed point, never a stale guess
 
@@ -203,6 +204,120 @@ theorem fixed_point_recomputes_every_item (st : Static) (nodes : List AstNode) (
     ∃ ps ps1, passNodes st false true pre ⟨d, initIter d.banks, [], true, []⟩ = .ok ps ∧ ps.defs = d ∧
       passNodes.go st false true n 0 (nodeElems n) ps = .ok ps1 ∧ ps1.defs = d ∧ ps1.stable = true :=
   fixed_point_at_every_node st nodes true d [] hfix hok pre post n hsplit
+
+theorem evalFuel_succ : evalFuel = (evalFuel - 1) + 1 := by unfold evalFuel; omega
+
+/-- **The statement of C02 for instructions, end to end.**  In a fixed point, every instruction
+    that is not short-cut by the static optimisation satisfies: evaluating all its candidate
+    rules on the *final* state, at the instruction's own position, in strict mode, resolves some
+    of them to sized encodings `rs`; exactly one of those has the smallest size; and that one is
+    the encoding stored for (and emitted by) the instruction. -/
+theorem emitted_instruction_is_unique_smallest (st : Static) (nodes : List AstNode) (d : Defs)
+    (hfix : FixedPoint st nodes d) (hok : NodesOK d nodes)
+    (pre post : List AstNode) (src : List Char) (ref : Nat) (hsplit : nodes = pre ++ AstNode.instr src (some ref) :: post)
+    (hin : ref < d.instrs.length) (hunres : (d.instrs.getD ref default).resolved = false) :
+    ∃ (ctx : RCtx) (rs : List Resolution) (c : ECtx) (i : Nat),
+      ctx.first = false ∧ ctx.last = true ∧
+      resolveMatches st d (evalFuel - 1) ctx ((d.instrs.getD ref default).cands.map (·.m)) {} [] = .ok (rs, c) ∧
+      chooseEncoding false rs = (some [(i, (d.instrs.getD ref default).encoding)], []) ∧
+      (∀ j b, j < rs.length → rs.getD j .unresolved = .resolved b →
+        (d.instrs.getD ref default).encoding.size.getD 0 ≤ b.size.getD 0) := by
+  obtain ⟨ps, ps1, _, hd0, hg, hd1, hs1⟩ := fixed_point_recomputes_every_item st nodes d hfix hok pre post _ hsplit
+  -- one resolver step for an instruction node
+  simp only [nodeElems, passNodes.go] at hg
+  cases hp : passNode st false true ps (AstNode.instr src (some ref)) 0 with
+  | error e => rw [hp] at hg; cases hg
+  | ok psx =>
+    rw [hp] at hg
+    simp only at hg
+    injection hg with hg
+    subst hg
+    rw [passNode_eq] at hp
+    simp only at hp
+    split at hp
+    · cases hp
+    · rename_i it hv
+      split at hp
+      · cases hp
+      · rename_i defs' stable reported hdisp
+        split at hp
+        · cases hp
+        · injection hp with hp
+          subst hp
+          simp only at hd1 hs1
+          have hst : stable = true := by
+            simp only [Bool.and_eq_true] at hs1; exact hs1.2
+          subst hst
+          subst hd1
+          rw [hd0] at hdisp
+          have hdisp' : resolveInstruction st defs' ⟨false, true, ps.symCtx, it.bank, it.pos⟩ ref = .ok (defs', true, reported) := hdisp
+          obtain ⟨encs, rep, e, henc, hhead, hstored⟩ :=
+            Casm.C01.instruction_emits_choice st defs' defs' _ ref true reported hunres hin hdisp' rfl
+          rw [evalFuel_succ] at henc
+          simp only [resolveEncoding] at henc
+          cases hm : resolveMatches st defs' (evalFuel - 1) ⟨false, true, ps.symCtx, it.bank, it.pos⟩
+              ((defs'.instrs.getD ref default).cands.map (·.m)) {} [] with
+          | error m => rw [hm] at henc; cases henc
+          | ok x =>
+            obtain ⟨rs, c⟩ := x
+            rw [hm] at henc
+            simp only at henc
+            injection henc with henc
+            have hcg : (⟨false, true, ps.symCtx, it.bank, it.pos⟩ : RCtx).canGuess = false := rfl
+            rw [hcg] at henc
+            obtain ⟨e1, he1⟩ := Casm.C01.strict_unique_choice rs encs rep henc
+            have hrep : rep = [] := (Casm.C01.choose_some henc).2.1
+            subst he1
+            simp only [List.head?_cons] at hhead
+            injection hhead with hhead
+            subst hhead
+            refine ⟨_, rs, c, e1.1, rfl, rfl, hm, ?_, ?_⟩
+            · rw [henc, hrep, hstored]
+            · intro j b hj hb
+              have := Casm.C01.chosen_are_smallest false rs [e1] rep henc e1.1 e1.2 (by simp) j b hj hb
+              rw [hstored]; exact this
+
+/-- **The statement of C02 for labels.**  In a fixed point every label's final value is the
+    address of the position the pass has reached when it arrives at the label (the position at
+    which the following item is laid out), computed in strict mode from the final state. -/
+theorem label_value_is_its_position (st : Static) (nodes : List AstNode) (d : Defs)
+    (hfix : FixedPoint st nodes d) (hok : NodesOK d nodes)
+    (pre post : List AstNode) (level : Nat) (name : String) (ne : Bool) (ref : Nat)
+    (hsplit : nodes = pre ++ AstNode.symbol level name .label ne (some ref) :: post) (hin : ref < d.symbols.length) :
+    ∃ (ps : PassSt) (it : IterSt) (a : Int),
+      passNodes st false true pre ⟨d, initIter d.banks, [], true, []⟩ = .ok ps ∧
+      visit d.banks ps.it (.label (st.decls.symbols.decls.getD ref default).depth
+          (match (d.sym ref).value with | .int b => b.v | _ => 0)) = .ok it ∧
+      evalAddress d ⟨false, true, (st.decls.symbols.decls.getD ref default).ctx, it.bank, it.pos⟩ false = .ok a ∧
+      (d.sym ref).value = .int ⟨a, none⟩ := by
+  obtain ⟨ps, ps1, hpre, hd0, hg, hd1, hs1⟩ := fixed_point_recomputes_every_item st nodes d hfix hok pre post _ hsplit
+  simp only [nodeElems, passNodes.go] at hg
+  cases hp : passNode st false true ps (AstNode.symbol level name .label ne (some ref)) 0 with
+  | error e => rw [hp] at hg; cases hg
+  | ok psx =>
+    rw [hp] at hg
+    simp only at hg
+    injection hg with hg
+    subst hg
+    rw [passNode_eq] at hp
+    simp only at hp
+    split at hp
+    · cases hp
+    · rename_i it hv
+      split at hp
+      · cases hp
+      · rename_i defs' stable reported hdisp
+        split at hp
+        · cases hp
+        · injection hp with hp
+          subst hp
+          simp only at hd1
+          subst hd1
+          rw [hd0] at hdisp hv
+          have hdisp' : resolveLabel st defs' ⟨false, true, (st.decls.symbols.decls.getD ref default).ctx, it.bank, it.pos⟩ ref =
+              .ok (defs', stable, reported) := hdisp
+          obtain ⟨a, ha, hval⟩ := Casm.C01.label_is_address st defs' defs' _ ref stable reported hin hdisp'
+          exact ⟨ps, it, a, hpre, hv, ha, hval⟩
 
 /-- the hypothesis `NoClash` is decidable; the certificate of every correspondence run evaluates it -/
 theorem noClash_of_refsWF (nodes : List AstNode) (h : refsWF nodes = true) : NoClash nodes := refsWF_noClash nodes h
